@@ -65,7 +65,8 @@ struct Runner {
     int step = 0;
     std::string curOp = "init";
     unsigned nmax = 8;
-    bool forceRun = false, exactW = true, nonneg = false;
+    bool forceRun = false, exactW = true, nonneg = false, extremeM = false, noModel = false;
+    int hub = -1;
     long observerCalls = 0;
     int faultsFired = 0;
     std::vector<std::pair<uint64_t, std::pair<int64_t, int64_t>>> ioFiles; // (digest,(len,rec)) for C15 evidence
@@ -75,6 +76,9 @@ struct Runner {
         forceRun = p.c("force", 0) != 0;
         exactW = p.c("exact", 1) != 0;
         nonneg = p.c("nonneg", 0) != 0;
+        extremeM = p.c("extreme", 0) != 0;
+        noModel = p.c("nomodel", 0) != 0;
+        hub = (int)p.c("hub", 0) - 1;
         m.directed = directed;
     }
 
@@ -126,6 +130,11 @@ struct Runner {
     bool hiddenStateSeen = false;
     void settle() {
         if (pending.empty()) return;
+        if (noModel) { // forced duplicates mixed with every mutator: the semantics are unspecified, only memory safety is judged
+            res.probes.inc("nomodel_mismatches_ignored", (int64_t)pending.size());
+            pending.clear();
+            return;
+        }
         if (plan.profile == "C06" && onlyAbsentPairMismatches()) {
             bool mine = false;
             for (auto &v : pending) if (v.prop == plan.profile) mine = true;
@@ -164,7 +173,7 @@ struct Runner {
     double valArg(const sim::Op &op) const {
         if constexpr (kind == SIMPLE) return 0;
         else if constexpr (kind == LABELED) return (double)modn(op.x, ALPHA_N);
-        else if constexpr (kind == MULTI) return (double)multArg(op.x);
+        else if constexpr (kind == MULTI) return (double)multArg(op.x, extremeM);
         else return weightArg(op.x, exactW, nonneg);
     }
 
@@ -195,7 +204,25 @@ struct Runner {
         // graphs loaded from hand-made files can have hundreds of vertices: pair-wise oracles then cover every pair that is an
         // edge in either orientation plus a deterministic sample of the others (per-vertex and whole-graph oracles stay complete)
         const bool sparse = n > 24;
+        const bool huge = n > 200; // quadratic whole-graph oracles (matrices, per-vertex in-degree scans) are dropped
         auto sel = [&](unsigned i, unsigned j) { return !sparse || mo.has(i, j) || mo.has(j, i) || ((i * 31u + j * 17u) % (n / 2 + 1)) == 0; };
+        std::vector<Key> pairs;
+        std::vector<char> vsel(n, huge ? 0 : 1);
+        if (!sparse) {
+            for (unsigned i = 0; i < n; ++i) for (unsigned j = 0; j < n; ++j) pairs.push_back(Key(i, j));
+        } else {
+            for (auto &kv : mo.e) {
+                pairs.push_back(kv.first);
+                if (kv.first.first != kv.first.second) pairs.push_back(Key(kv.first.second, kv.first.first));
+                if (huge) { vsel[kv.first.first] = 1; vsel[kv.first.second] = 1; }
+            }
+            for (unsigned t = 0; t < 2 * std::min(n, 128u); ++t) {
+                unsigned i = (unsigned)((t * 7919ull) % n), j = (unsigned)((t * 104729ull + 13) % n);
+                if (!mo.has(i, j) && !mo.has(j, i)) pairs.push_back(Key(i, j));
+                if (huge) vsel[i] = 1;
+            }
+            if (huge) { vsel[0] = 1; vsel[n - 1] = 1; }
+        }
         dg.tag(who);
         bool sizeOk = true;
         GS_OBS("getSize", STRUCT, {
@@ -217,9 +244,8 @@ struct Runner {
             if (!ok || k != n) mismatch(STRUCT, "vertex_iteration", "visited " + std::to_string(k));
         })
         // hasEdge for every ordered pair
-        for (unsigned i = 0; i < n; ++i)
-            for (unsigned j = 0; j < n; ++j) {
-                if (!sel(i, j)) continue;
+        for (const Key &pr : pairs) {
+                const unsigned i = pr.first, j = pr.second;
                 GS_OBS("hasEdge", STRUCT, {
                     bool h = gr.hasEdge(i, j);
                     dg.byte(h);
@@ -230,6 +256,7 @@ struct Runner {
             }
         // neighbour lists as multisets
         for (unsigned i = 0; i < n; ++i) {
+            if (!vsel[i]) continue;
             GS_OBS("getOutNeighbours", STRUCT, {
                 const BaseGraph::Successors &s = gr.getOutNeighbours(i);
                 std::vector<unsigned> v(s.begin(), s.end());
@@ -263,7 +290,7 @@ struct Runner {
             if (got != want) mismatch(STRUCT, "edges()", "got " + std::to_string(got.size()) + " want " + std::to_string(want.size()) + " (or different pairs)");
         })
         // adjacency matrix
-        if (!(dups && kind == MULTI)) {
+        if (!(dups && kind == MULTI) && !huge) {
             if constexpr (directed) {
                 GS_OBS("getAdjacencyMatrix", STRUCT, {
                     auto mat = gr.getAdjacencyMatrix();
@@ -298,6 +325,7 @@ struct Runner {
                     inW[kv.first.second] += c;
                 }
                 for (unsigned i = 0; i < n; ++i) {
+                    if (!vsel[i]) continue;
                     GS_OBS("getOutDegree", STRUCT, { size_t d = gr.getOutDegree(i); dg.u64(d); if (d != outW[i]) mismatch(STRUCT, "getOutDegree", "vertex " + std::to_string(i)); })
                     GS_OBS("getInDegree", STRUCT, { size_t d = gr.getInDegree(i); dg.u64(d); if (d != inW[i]) mismatch(STRUCT, "getInDegree", "vertex " + std::to_string(i)); })
                 }
@@ -312,6 +340,7 @@ struct Runner {
                         else { want[kv.first.first] += c; want[kv.first.second] += c; }
                     }
                     for (unsigned i = 0; i < n; ++i) {
+                        if (!vsel[i]) continue;
                         GS_OBS("getDegree", STRUCT, {
                             size_t d = gr.getDegree(i, twice != 0);
                             dg.u64(d);
@@ -322,6 +351,7 @@ struct Runner {
                     if (twice) {
                         // default argument counts self-loops twice
                         for (unsigned i = 0; i < n; ++i) {
+                            if (!vsel[i]) continue;
                             GS_OBS("getDegree", STRUCT, { if (gr.getDegree(i) != want[i]) mismatch(STRUCT, "getDegree(default)", "vertex " + std::to_string(i)); })
                         }
                     }
@@ -330,9 +360,8 @@ struct Runner {
         }
         // labels / multiplicities / weights
         if constexpr (kind == LABELED) {
-            for (unsigned i = 0; i < n; ++i)
-                for (unsigned j = 0; j < n; ++j) {
-                if (!sel(i, j)) continue;
+            for (const Key &pr : pairs) {
+                const unsigned i = pr.first, j = pr.second;
                     const MEdge *e = mo.find(i, j);
                     if (e) {
                         if (!e->known || e->copies > 1) continue; // C16 says nothing about the label of a pair while it is duplicated
@@ -371,9 +400,8 @@ struct Runner {
                     if (t != total) mismatch(VALUE, "getTotalEdgeNumber", "got " + std::to_string(t) + " want " + std::to_string(total));
                 })
             }
-            for (unsigned i = 0; i < n; ++i)
-                for (unsigned j = 0; j < n; ++j) {
-                if (!sel(i, j)) continue;
+            for (const Key &pr : pairs) {
+                const unsigned i = pr.first, j = pr.second;
                     const MEdge *e = mo.find(i, j);
                     if (e && (!e->known || e->copies > 1)) continue;
                     GS_OBS("getEdgeMultiplicity", VALUE, {
@@ -399,7 +427,7 @@ struct Runner {
                     }
                 })
             }
-            GS_OBS("getWeightMatrix", VALUE, {
+            if (!huge) GS_OBS("getWeightMatrix", VALUE, {
                 auto wm = gr.getWeightMatrix();
                 bool ok = wm.size() == n;
                 for (unsigned i = 0; i < n && ok; ++i) {
@@ -415,9 +443,8 @@ struct Runner {
                 }
                 if (!ok) mismatch(VALUE, "getWeightMatrix", "");
             })
-            for (unsigned i = 0; i < n; ++i)
-                for (unsigned j = 0; j < n; ++j) {
-                if (!sel(i, j)) continue;
+            for (const Key &pr : pairs) {
+                const unsigned i = pr.first, j = pr.second;
                     const MEdge *e = mo.find(i, j);
                     if (e) {
                         if (!e->known || e->copies > 1) continue;
@@ -471,6 +498,11 @@ struct Runner {
         return r;
     }
 
+    // pointer to an element of `from`'s neighbour list equal to `target` (for F_ALIAS calls)
+    static const VertexIndex *aliasOf(const G &gr, unsigned from, unsigned target) {
+        for (const VertexIndex &x : gr.getOutNeighbours(from)) if (x == target) return &x;
+        return nullptr;
+    }
     void noteRemoval(const Model &mo, const char *how, size_t before) {
         if (mo.e.size() < before && kind != SIMPLE) res.probes.inc(std::string("labelled_edge_removed_by_") + how);
     }
@@ -504,7 +536,10 @@ struct Runner {
         if (k == "remvert") {
             size_t b = mo.e.size();
             if (mo.has(r.va, r.va)) res.probes.inc("selfloop_on_removed_vertex");
-            gr.removeVertexFromEdgeList(r.va);
+            const VertexIndex *al = nullptr;
+            if (op.y & F_ALIAS) for (unsigned i = 0; i < mo.n && !al; ++i) al = aliasOf(gr, i, r.va);
+            if (al) { res.probes.inc("aliased_argument_call"); gr.removeVertexFromEdgeList(*al); }
+            else gr.removeVertexFromEdgeList(r.va);
             mo.removeVertex(r.va);
             noteRemoval(mo, "removeVertexFromEdgeList", b);
             return;
@@ -513,12 +548,22 @@ struct Runner {
             size_t b = mo.e.size();
             MEdge *e = mo.find(r.va, r.vb);
             if (!e) res.faults.inc("dup_remove_absent");
-            gr.removeEdge(r.ca, r.cb);
+            const VertexIndex *al = (op.y & F_ALIAS) ? aliasOf(gr, r.ca, r.cb) : nullptr;
+            if (al) { res.probes.inc("aliased_argument_call"); gr.removeEdge(r.ca, *al); }
+            else gr.removeEdge(r.ca, r.cb);
             if (kind == MULTI) {
                 if (e) { if (e->val > 1 && e->copies == 1) { e->val -= 1; mo.touch(); } else mo.remove(r.va, r.vb); }
             } else mo.remove(r.va, r.vb);
             noteRemoval(mo, "removeEdge", b);
             return;
+        }
+        if constexpr (kind == MULTI) {
+            // multiplicities are 32-bit: an additive call that would leave that domain is outside the property
+            auto full = [&](unsigned s, unsigned d, double add) { const MEdge *x = mo.find(s, d); return x && x->val + add > 4294967295.0; };
+            if ((k == "add" && full(r.va, r.vb, 1)) || (k == "addrec" && (full(r.va, r.vb, r.va == r.vb ? 2 : 1) || full(r.vb, r.va, 1)))) {
+                res.probes.inc("additive_op_skipped_would_overflow_32bit");
+                return;
+            }
         }
         if (k == "add") {
             MEdge *e = mo.find(r.va, r.vb);
@@ -564,6 +609,15 @@ struct Runner {
         }
         if constexpr (kind == MULTI) {
             const unsigned kk = (unsigned)val;
+            auto overflows = [&](unsigned s, unsigned d, double add) {
+                const MEdge *e = mo.find(s, d);
+                return (e ? e->val : 0.0) + add > 4294967295.0;
+            };
+            if ((k == "addmul" && overflows(r.va, r.vb, kk)) ||
+                (k == "addrecmul" && (overflows(r.va, r.vb, r.va == r.vb ? 2.0 * kk : kk) || overflows(r.vb, r.va, kk)))) {
+                res.probes.inc("additive_op_skipped_would_overflow_32bit");
+                return;
+            }
             auto addK = [&](unsigned s, unsigned d) {
                 if (kk == 0) return;
                 MEdge *e = mo.find(s, d);
@@ -588,7 +642,11 @@ struct Runner {
                 MEdge *e = mo.find(r.va, r.vb);
                 if (e && kk >= 1 && e->val > kk) res.probes.inc("removeMultiedge_partial");
                 if (e && kk == (unsigned)e->val) res.probes.inc("removeMultiedge_exact");
-                gr.removeMultiedge(r.ca, r.cb, kk);
+                {
+                    const VertexIndex *al = (op.y & F_ALIAS) ? aliasOf(gr, r.ca, r.cb) : nullptr;
+                    if (al) { res.probes.inc("aliased_argument_call"); gr.removeMultiedge(r.ca, *al, kk); }
+                    else gr.removeMultiedge(r.ca, r.cb, kk);
+                }
                 if (e && kk > 0) { if (e->val > kk) { e->val -= kk; mo.touch(); } else mo.remove(r.va, r.vb); }
                 noteRemoval(mo, "removeMultiedge", b);
                 return;
@@ -597,7 +655,12 @@ struct Runner {
                 size_t b = mo.e.size();
                 MEdge *e = mo.find(r.va, r.vb);
                 if (e && kk == 0 && e->val >= 2) res.probes.inc("setMultiplicity0_on_mult_ge2");
-                gr.setEdgeMultiplicity(r.ca, r.cb, kk);
+                if (e && std::fabs((double)kk - e->val) >= 2147483648.0) res.probes.inc("setMultiplicity_jump_ge_2^31");
+                {
+                    const VertexIndex *al = (op.y & F_ALIAS) ? aliasOf(gr, r.ca, r.cb) : nullptr;
+                    if (al) { res.probes.inc("aliased_argument_call"); gr.setEdgeMultiplicity(r.ca, *al, kk); }
+                    else gr.setEdgeMultiplicity(r.ca, r.cb, kk);
+                }
                 if (kk == 0) mo.remove(r.va, r.vb);
                 else if (e) { if (e->val != kk) mo.touch(); e->val = kk; } else mo.add(r.va, r.vb, kk);
                 noteRemoval(mo, "setEdgeMultiplicity0", b);
@@ -745,8 +808,9 @@ struct Runner {
                     if constexpr (kind == MULTI) {
                         unsigned cur = (unsigned)mb.find(a, b)->val;
                         int how = (int)r.below(3);
+                        if (cur > 64 && how == 2) how = 0; // one removeEdge per parallel edge is only sensible for small multiplicities
                         if (how == 0) B->setEdgeMultiplicity(ca, cb, 0);
-                        else if (how == 1) B->removeMultiedge(ca, cb, cur + (unsigned)r.below(2));
+                        else if (how == 1) B->removeMultiedge(ca, cb, cur == 4294967295u ? cur : cur + (unsigned)r.below(2));
                         else for (unsigned t = 0; t < cur; ++t) B->removeEdge(ca, cb);
                     } else B->removeEdge(ca, cb);
                     mb.remove(a, b);
@@ -810,7 +874,11 @@ struct Runner {
                         Key k = present[r.below(present.size())];
                         MEdge *e = mb.find(k.first, k.second);
                         if constexpr (kind == LABELED) { double v = (double)modn((int64_t)e->val + 1 + (int64_t)r.below(ALPHA_N - 1), ALPHA_N); B->setEdgeLabel(k.first, k.second, labelOf(v)); e->val = v; }
-                        else if constexpr (kind == MULTI) { double v = e->val + 1 + (double)r.below(3); B->setEdgeMultiplicity(k.first, k.second, (unsigned)v); e->val = v; }
+                        else if constexpr (kind == MULTI) {
+                            const double step = 1 + (double)r.below(3);
+                            const double v = e->val > 1000 ? e->val - step : e->val + step; // stays inside the 32-bit domain
+                            B->setEdgeMultiplicity(k.first, k.second, (unsigned)v); e->val = v;
+                        }
                         else if constexpr (kind == WEIGHTED) { double v = e->val + 0.25 * (double)(1 + r.below(8)); B->setEdgeWeight(k.first, k.second, v); e->val = v; mb.touch(); mb.absAdded += std::fabs((long double)v); }
                         res.probes.inc("replica_diff_label");
                         break;
@@ -847,7 +915,7 @@ struct Runner {
     Cat catOfOp(const std::string &k) const {
         if (k == "reject") return REJECT;
         if (k == "copy" || k == "assign" || k == "replica") return EQ;
-        if (k == "persist" || k == "loadraw" || k == "openfail") return plan.profile == "C14" ? IO14 : (plan.profile == "C15" ? IO15 : IO13);
+        if (k == "persist" || k == "loadraw" || k == "openfail" || k == "bigio") return plan.profile == "C14" ? IO14 : (plan.profile == "C15" ? IO15 : IO13);
         if (k == "cutall") return IO15;
         if (k == "alg") return UB;
         return STRUCT;
@@ -869,7 +937,7 @@ struct Runner {
             else if (op.k == "replica") doReplica(op);
             else if (op.k == "reject") doReject(op);
             else if (op.k == "persist") doPersist(op);
-            else if (op.k == "openfail" || op.k == "loadraw" || op.k == "cutall") doIo(op);
+            else if (op.k == "openfail" || op.k == "loadraw" || op.k == "cutall" || op.k == "bigio") doIo(op);
             else if (op.k == "alg") doAlg(op);
             else res.probes.inc("unknown_op");
         } catch (const std::exception &ex) {
